@@ -29,9 +29,10 @@ open RR RR.Blk RR.Chain
 
 /-- The documented 1200-baud chain, as the example source has it now (the translator inlines the example's
 own helper functions, so that moving blocks into or out of a helper does not change the list: the first four
-blocks are the SDR input path of `get_input`, not used when the input is audio). -/
+blocks are the SDR input path of `get_input` — built in mutually exclusive branches, hence listed sorted — not used
+when the input is audio). -/
 theorem c20_chain_1200_as_documented :
-    Gen.rx1200Chain = ["FftFilter", "RationalResampler", "FastFM", "QuadratureDemod",
+    Gen.rx1200Chain = ["FastFM", "FftFilter", "QuadratureDemod", "RationalResampler",
       "Hilbert", "QuadratureDemod", "FftFilterFloat", "add_const", "SymbolSync",
       "BinarySlicer", "NrziDecode", "HdlcDeframer"] ∧
     Gen.rx1200HdlcMin = 10 ∧ Gen.rx1200HdlcMax = 1500 ∧ Gen.rx1200HilbertTaps = 65 := by decide
